@@ -272,8 +272,11 @@ def _patched_join(thread, timeout=None):
 
 
 class Scheduler(object):
-    def __init__(self, targets, rules=(), timeout=20.0, max_steps=100000):
+    def __init__(self, targets, rules=(), timeout=20.0, max_steps=100000, only_funcs=None):
+        """`only_funcs`: if given, only frames whose function name is in this set are gated
+        (everything else in the target files runs as part of the surrounding step)."""
         self.targets = set(str(t) for t in targets)
+        self.only_funcs = None if only_funcs is None else set(only_funcs)
         self.rules = list(rules)
         self.timeout = timeout
         self.max_steps = max_steps
@@ -300,8 +303,10 @@ class Scheduler(object):
                 self._park(tid, _Gate(code.co_filename, frame.f_lineno, code.co_name, frame))
             return local
 
+        only = self.only_funcs
+
         def glob(frame, event, arg):
-            if frame.f_code.co_filename in targets:
+            if frame.f_code.co_filename in targets and (only is None or frame.f_code.co_name in only):
                 # not a gate: which target-file function was entered during which step
                 self._result.calls.append((len(self._result.trace), tid, frame.f_code.co_name))
                 return local
